@@ -14,6 +14,9 @@ WRAP_TECH = ("implementation-shaped TLA+ models (spec/Blocking.tla, spec/QueueBl
 LIM_NOTE = ("Sequential histories for the deterministic contracts; exhaustive graph part uses window size 10 (the code's minimum), ages <= 2 ticks, one or two window "
             "closings, scripted estimate trajectories {1,3,0,2} / {2,2,1}; testing/synctest's virtual clock makes RTTs exact; TLC 1.8 + CommunityModules Json trusted.")
 
+ALGO_NOTE = ("AIMD and (in the sub-domain RTT in {0,1,2,4,8,16} units, smoothing 1, default functions) Vegas are modelled exactly; Gradient and Gradient2 are floating-point: "
+             "only order relations on exactly encoded values are checked. Configuration preconditions: Gradient initial >= queue allowance and minimum, tolerance >= 1.")
+
 CHECKS = {
     "C01": dict(
         technique="implementation-shaped TLA+ model of the lock structure (spec/DefaultLimiterConc.tla) model-checked by TLC with lock-removal weakenings; the weakened model's attack schedule realised on the real code in real time through the verif hooks simple.afterCheck / precise.afterCheck; recorded free-running concurrent histories checked for linearisability against the atomic gate by TLC (spec/GateTrace.tla); gate-serialised wrapper schedules validated by spec/WrapperTrace.tla",
@@ -52,6 +55,34 @@ CHECKS = {
         technique=WRAP_TECH,
         text="Virtual-clock bounds: TLC checks DeadlineBound, TimeoutBound, CancelBound and NoEarlyRefusal on the models with Tick allowed between any two gates; the contract rejects a caller blocked at or past its bound in a stable state (class bound) and a refusal without a reason (class early) in every recorded execution, with instants exact to the tick.",
         ref="5 C13", note=WRAP_NOTE),
+    "C04": dict(
+        technique="TLA+ contract of the limit algorithms as a trace acceptor (spec/LimitTrace.tla, class bounds) validating recorded sample sequences of every algorithm bare, traced and windowed; exact TLA+ models of AIMD (spec/Aimd.tla) and of Vegas in the float-exact sub-domain (spec/VegasModel.tla) model-checked by TLC and replayed transition by transition on the real objects",
+        text="After every sample the reported estimate must be a finite integer within [floor, max(ceiling, initial)] and no call may panic: checked by TLC on every line of seeded sequences over extreme inputs (RTT 0, 1, baseline +-1, 2^31, 2^62; in-flight 0..2^31-1; drops, drop-only windows through the windowed limit) for all four algorithms and both wrappers, and as the invariant Bounds in every reachable state of the exact AIMD and Vegas models, whose every transition is executed on the real AIMDLimit / VegasLimit.",
+        ref="5 C04", note=ALGO_NOTE),
+    "C06": dict(
+        technique="exact TLA+ models (spec/Aimd.tla, spec/VegasModel.tla) model-checked by TLC (DropLowers, DropNeverRaises, DropRunReachesFloor in every reachable state) and replayed on the real objects; recorded sequences with drop runs validated by spec/LimitTrace.tla (class loss)",
+        text="AIMD's drop rule max(1, min(limit-1, floor(limit*ratio))) is the model itself: every (limit, sample class) transition for ratios 1/2, 7/8, 1 and 9/10 is executed on the real AIMDLimit and must land on the model's value. For Vegas and Gradient the contract rejects any drop sample after which the reported estimate is higher, and every recorded drop run (arbitrary prefix, then only drops at a fixed RTT) must reach the floor within a closed-form bound.",
+        ref="5 C06", note=ALGO_NOTE),
+    "C07": dict(
+        technique="exact TLA+ models (spec/Aimd.tla, spec/VegasModel.tla: AppLimitedNeverRaises, HealthyRunRecovers in every reachable state) replayed on the real objects; recorded sequences with app-limited samples and healthy saturated runs validated by spec/LimitTrace.tla (class demand)",
+        text="No app-limited non-drop sample may raise the estimate (checked on every recorded sample of all four algorithms and, for every reachable state and every input of the bounded domain, in the Vegas model); AIMD +increment exactly on every saturated sample; Gradient at least +queue allowance per healthy non-probe sample; and from the state left by an arbitrary prefix and a drop run, a healthy saturated run must bring the estimate to within one of the ceiling within a closed-form bound (TLC: from every reachable state of the Vegas model).",
+        ref="5 C07", note=ALGO_NOTE + " Vegas probe multiplier >= 4 (see DESIGN section 7: with 1 or 2 nothing can grow below an estimate of 2, which C15's own bound forces)."),
+    "C08": dict(
+        technique="TLC checks Monotone on the exact Vegas model (spec/VegasModel.tla) for every reachable state and every RTT pair; recorded twin-instance experiments (identical history, jitter forced through verif accessors, last sample differing only in RTT) validated by spec/LimitTrace.tla (class monotone)",
+        text="Relational (two-run) property: for Vegas, Gradient and Gradient2, two identically prepared real instances receive a last sample with RTT lo < hi (both at or above the baseline, neither a probe): the contract rejects esthi > estlo. 45 RTT pairs around the thresholds per prepared state, 90-600 prepared states; plus the universally quantified invariant on the Vegas integer model.",
+        ref="5 C08", note=ALGO_NOTE),
+    "C15": dict(
+        technique="TLC checks BaselineIsMin on the exact Vegas model; recorded sample sequences (real random jitter) validated by spec/LimitTrace.tla (class baseline): baseline <= RTT, baseline is an RTT seen since the last reset, resets recur within the bound",
+        text="After every recorded sample of Vegas and Gradient the contract compares the exactly encoded baseline with the sample's RTT and with the set of RTTs seen since the last reset (probe observed through the verif accessors), and counts samples since the last reset against multiplier x largest estimate (Vegas) / 2 x interval (Gradient).",
+        ref="5 C15", note=ALGO_NOTE + " Baselines are compared with the float64 value of the RTT (identical below 2^53)."),
+    "C16": dict(
+        technique="recorded sample / registration sequences of all limit implementations validated by spec/LimitTrace.tla (class notify); exact AIMD model carries the notified value (invariant Notified) and is replayed on the real AIMDLimit",
+        text="For every listener registered (0-3, some registered late) the contract requires a call whenever the reported estimate changed and that the last value delivered equals EstimatedLimit afterwards, on every recorded sample of AIMD, Vegas, Gradient, Gradient2, bare and through the traced and windowed wrappers; the windowed wrapper must report its delegate's estimate (WindowedTrace).",
+        ref="5 C16", note=ALGO_NOTE),
+    "C18": dict(
+        technique="TLA+ contract of the measurement primitives as a trace acceptor (spec/MeasureTrace.tla) on exactly encoded float64 bit patterns; the sample-window fold is additionally part of the Limiter contract whose full state graph is replayed on the real limiter",
+        text="Minimum = least sample since reset, single = latest, averages inside the hull of the samples seen, variance non-negative, Add's flag true whenever Get() changed, a reset instance bit-identical to a fresh twin for the same subsequent samples, and the immutable sample window's fold independent of the order of its samples - checked by TLC on every line of 360-3000 seeded sequences per run.",
+        ref="5 C18", note="Numerical accuracy of the floating-point primitives is not modelled (order and equality of exact bit patterns only); positive finite samples."),
     "C14": dict(
         technique="TLA+ contract of one intercepted operation (spec/Grpc.tla); TLC enumerates the full product of inputs (GrpcMC) and every case is executed on the real interceptors with recording doubles; recorded random operation sequences validated by TLC (GrpcTrace)",
         text="All 192 combinations of operation (unary server / unary client / RecvMsg / SendMsg) x grant x inner error x classifier answer x default-or-custom classifiers x default-or-custom limit-exceeded classifier are executed against the real interceptors with recording limiter/listener doubles and fake handler, invoker and ServerStream; the observation (limiter consulted, wrapped call run, listener method on which token, returned value / status code) must equal the contract's. 3k-20k random operations are validated in the other direction.",
